@@ -156,6 +156,58 @@ IdentityPreserved(a, e) ==
     /\ IdentityProj(a, Redact(a, e)) = IdentityProj(a, e)
     /\ SignedProj(a, Redact(a, e)) = SignedProj(a, e)
 
+\* --- the event OBJECT route -----------------------------------------------------------------------
+\* An event object (a PDU of the library) is a JSON value held by a process, together with what the process did to
+\* it.  Abstractly:  [ev   |-> the abstract event its JSON() is,
+\*                    sigs |-> the signing keys whose signature the `signatures` member carries (opaque names),
+\*                    red  |-> the object has been redacted (Redact() was called, or it was made from JSON known
+\*                             to be redacted)]
+\* The operations below are the only ways the JSON of an object changes.  None of them reads how the object was
+\* made, whether its event ID has been asked for, or how the JSON text handed in was spelt: an object is its JSON.
+ObjOf(ev, sigs, red) == [ev |-> ev, sigs |-> sigs, red |-> red]
+
+\* what receipt over federation strips before anything else looks at the event (the sender has no say in these;
+\* from room version 3 on the event ID is not a member of the event)
+ReceiptStripped(fmt) == {"unsigned", "age_ts", "outlier", "destinations"} \cup (IF fmt = 1 THEN {} ELSE {"event_id"})
+
+WithTop(ev, k, cls) == [ev EXCEPT !.top = [x \in DOMAIN ev.top \cup {k} |-> IF x = k THEN cls ELSE ev.top[x]]]
+
+ObjParseTrusted(ev, sigs) == ObjOf(ev, sigs, FALSE)                       \* trusted / headered / with-event-ID parse
+ObjParseUntrusted(fmt, ev, sigs) == ObjOf(DropTop(ev, ReceiptStripped(fmt)), sigs, FALSE)   \* content hash intact
+ObjSign(o, s) == [o EXCEPT !.sigs = @ \cup {s},
+                           !.ev = IF "signatures" \in DOMAIN @.top THEN @ ELSE WithTop(@, "signatures", "std")]
+ObjSetUnsigned(o) == [o EXCEPT !.ev = WithTop(@, "unsigned", "std")]
+ObjReadEventID(o) == o
+\* Redact(): the redaction of the CURRENT JSON, whatever happened to the object before; on an object that is
+\* redacted already it changes nothing (idempotence; `unsigned` given to a redacted event afterwards is the
+\* server's own and outside the algorithm)
+ObjRedact(a, o) == IF o.red THEN o ELSE [o EXCEPT !.ev = Redact(a, @), !.red = TRUE]
+
+\* The identity of an object: what the reference hash - from room version 3 on the event ID - is computed from
+\* (in event format 1, and when the JSON carries an `event_id` member, that member is part of it: it is kept).
+ObjIdentity(a, o) == IdentityProj(a, o.ev)
+ObjSigned(a, o) == SignedProj(a, o.ev)
+
+\* One step `before -> after` of an object by the operation `act` keeps the property: identity, what signatures
+\* cover, type / sender / room / state key and the event_id member unchanged, no signature lost; Redact() gives
+\* exactly the redaction of the JSON the object had.
+ObjStepOK(a, act, before, after) ==
+    /\ ObjIdentity(a, after) = ObjIdentity(a, before)
+    /\ ObjSigned(a, after) = ObjSigned(a, before)
+    /\ before.sigs \subseteq after.sigs
+    /\ after.ev.type = before.ev.type
+    /\ \A k \in CoreKeys \cup {"event_id"} :
+          /\ (k \in DOMAIN after.ev.top) = (k \in DOMAIN before.ev.top)
+          /\ (k \in DOMAIN before.ev.top => after.ev.top[k] = before.ev.top[k])
+    /\ (before.red => after.red)
+    /\ (act = "redact" =>
+          /\ after.red /\ after.sigs = before.sigs
+          /\ (~before.red => after.ev = Redact(a, before.ev))
+          /\ (before.red => after = before)
+          /\ ("signatures" \in DOMAIN before.ev.top => "signatures" \in DOMAIN after.ev.top))
+    /\ (act = "readid" => after = before)
+    /\ (act = "sign" => after.sigs # {} /\ "signatures" \in DOMAIN after.ev.top)
+
 \* --- sanity of the tables themselves (consequences that must hold) ----------------------------
 TablesSane ==
     /\ TopKeepNew \subseteq TopKeepOld /\ Cardinality(TopKeepOld) = 15 /\ Cardinality(TopKeepNew) = 12
